@@ -66,12 +66,21 @@ JOBS["C10"] = [
     H("checkrepair", "beaconnet", "^TestC10CheckRepair$", {"shards": 7, "checks": 40, "timeout": 1200}, {"shards": 14, "checks": 600, "timeout": 3400}),
 ]
 
+JOBS["C11"] = [
+    H("stream", "streamgate", "^TestC11Stream$", {"shards": 12, "checks": 35, "timeout": 1200}, {"shards": 14, "checks": 3000, "timeout": 3400}),
+]
+
 LEVELS = {"C13": "fault_enumeration"}
 
 _MACHINE = ("rapid state machine over a network of real beacon handlers: scheme in 5, n in 2..6, t in [n/2+1,n], back-end in {memdb (cap 2000 or 10), bolt trimmed, bolt untrimmed}, period 2..6 s; "
             "actions: tick, sub-period advance, burst of 2-6 periods, advance of a subset (skew/stall), realign, partition/heal, queue mode with generated delivery order and drops, duplicate mode, stop/restart (same or fresh store), "
             "forged partial injection (12 kinds incl. valid-for-clock+k), scripted lying sync peer (13 kinds), sync-stream tap. ")
 RULES = {
+    "C11": "a beacon.NewCallbackStore over {trimmed bolt, untrimmed bolt, memdb ring of 10 that is already full} holding rounds 0..H (H in 0..40) and up to 3 real beacon.SyncChain invocations (two of them from the same client address = reconnect) "
+           "with start round in {0, lowest stored, middle, head, head+1, head+5}. Every cursor Seek/Next, every stream Send and the AddCallback call parks at a gate owned by the harness, so the interleaving of the scan, the hand-over "
+           "to live delivery and up to 14 store appends is a rapid-generated sequence of {open, step k gates, fail a send, put, cancel}. Oracle: the sequence of rounds handed to Send (up to the first failed send) is start, start+1, ... "
+           "without skip or repeat, each equal to the stored beacon; at the end every live stream, run to quiescence, has delivered up to the store head; a start beyond the head is refused. "
+           "Non-trivial: a put while some stream was still in its catch-up phase, >= 2 concurrent streams, or a reconnect; distinct by back-end + H + action history.",
     "C10": "sync: one real node (scheme in 5, 3 back-ends, chained/unchained) at height h in {0,1,3,8} with a clock h+{1,2,5,12} rounds ahead catches up (Handler.Catchup + tick-triggered re-requests) from 1-5 scripted peers, each drawn from "
            "{honest & ahead, honest but behind, refuses, silent, stalls after k, closes after k, bad signature, relabelled round, skipped round, repeated round, swapped order, group-signed wrong previous signature, foreign beacon id, "
            "truncated signature, other chain's key} lying at position 0..4. Oracle: every Put verifies (own digest + key), Put history consecutive, never beyond what an honest peer holds; with an honest-ahead peer the store reaches the goal "
@@ -118,6 +127,7 @@ RULES = {
 }
 
 ASSUMPTIONS = {
+    "C11": ["streams are driven at the SyncChain/SyncStream interface (gRPC transport not involved)", "for the ring back-end the generator does not evict a round a scanning stream has not sent yet (it no longer exists)"],
     "C10": ["fewer than t colluding members (group-signed forgeries are out of scope for repair)", "follow mode through the control API is not exercised by this check (participant mode + check/repair only)", "in-memory back-end: only missing rounds are in scope for repair (the ring keeps old values by design)"],
     "C05": ["liveness is checked as bounded liveness in fake time, not unbounded eventually", "catch-up period < period (with equality a gap can never close by construction)", "in-memory network: gRPC back-off not modelled"],
     "C03": ["adversary holds fewer than t shares", "kyber VerifyPartial is the harness's validity criterion"],
